@@ -387,4 +387,22 @@ Section Walk.
           -- destruct sinit; discriminate.
           -- apply Forall_app. split; [exact Hs|]. now constructor.
   Qed.
+  (* tokens joined by [x] without a trailing separator: nothing is cut *)
+  Lemma walk_joined (x : str) (init : list str) (ph : str) :
+    In x regions -> Forall good_phone init -> good_phone ph ->
+    strip_suffix seps (terminated x init ++ ph) = terminated x init ++ ph.
+  Proof.
+    intros HR Hi Hp. induction init as [|p init IH].
+    - cbn [app]. rewrite terminated_nil. cbn [app].
+      rewrite <- (app_nil_r ph) at 1. rewrite walk_phone by apply Hp.
+      now rewrite strip_suffix_nil, app_nil_r.
+    - inversion Hi as [|? ? Hg Hi']; subst.
+      rewrite !terminated_cons, <- !app_assoc, walk_phone by apply Hg.
+      f_equal. rewrite (walk_region [] x).
+      + now rewrite IH.
+      + destruct init as [|q init].
+        * rewrite terminated_nil. cbn [app]. exists ph, []. split; [now rewrite app_nil_r|exact Hp].
+        * apply phone_headed_terminated; [discriminate|exact Hi'].
+      + exists x. split; [exact HR|reflexivity].
+  Qed.
 End Walk.
